@@ -225,7 +225,7 @@ func c17Rules(c *Ctx, alias string) {
 						}
 						return "buf?Truncate"
 					case IsCallTo(x, "(*bytes.Buffer).WriteByte", "(*bytes.Buffer).Next", "(*bytes.Buffer).ReadFrom") && isBuf(st, a[0]):
-						return "buf?" + CalleeFunc(x).Name()
+						return "buf?" + FNm(CalleeFunc(x))
 					case IsCallTo(x, "(*go.uber.org/zap/zapio.Writer).Sync"):
 						return "sync"
 					}
@@ -353,7 +353,7 @@ func c17Rules(c *Ctx, alias string) {
 	p := writeParam(wr)
 	seqs, trunc, cut := explore(wr, int64(N))
 	if trunc || len(seqs) == 0 || p == nil {
-		c.Und(R("R17.1"), wr.String(), "paths", wr.Pos(), "path exploration of Write incomplete (%d sequences, truncated=%v)", len(seqs), trunc)
+		c.Und(R("R17.1"), FStr(wr), "paths", wr.Pos(), "path exploration of Write incomplete (%d sequences, truncated=%v)", len(seqs), trunc)
 		return
 	}
 	if os.Getenv("ZV_DEBUG") != "" {
@@ -580,11 +580,11 @@ func c17Rules(c *Ctx, alias string) {
 		return l
 	}
 	P := PN(p)
-	c.Check(len(badLine) == 0 && len(placements) >= 1<<uint(N), R("R17.1"), wr.String(), "line-protocol", wr.Pos(), "bounded concrete exploration: a %d-byte chunk, every placement of newlines in it (%d placements, %d feasible paths incl. pending / no pending partial line; %d longer paths cut): what Write logs is exactly the completed lines of (pending ++ chunk), in order, empty ones included, and what it leaves buffered is exactly the unterminated rest: %v", N, len(placements), feasible, cut, lim(badLine))
-	c.Check(len(badRet) == 0, R("R17.1"), wr.String(), "consumes-all", wr.Pos(), "every path returns (len(%s), nil): %v", P, lim(badRet))
-	c.Check(len(badGate) == 0, R("R17.2"), wr.String(), "level-gate", wr.Pos(), "Write first asks the logger's core whether the writer's level is enabled (afresh on every call) and, if not, returns (len(%s), nil) without buffering or logging: %v", P, lim(badGate))
-	c.Check(len(badFast) == 0 && len(badLine) == 0, R("R17.4"), wr.String(), "fast-path-only-when-empty", wr.Pos(), "same exploration: a line is logged straight from the chunk only where the buffer is known to be empty; otherwise it joins the buffer, the buffer is logged and then reset: %v", lim(badFast))
-	c.Check(len(badKeep) == 0 && len(badLine) == 0, R("R17.5"), wr.String(), "no-retained-caller-slice", wr.Pos(), "same exploration: the buffer only ever grows by copying (bytes.Buffer.Write / append(buf, piece...)); the caller's slice is never stored: %v", lim(badKeep))
+	c.Check(len(badLine) == 0 && len(placements) >= 1<<uint(N), R("R17.1"), FStr(wr), "line-protocol", wr.Pos(), "bounded concrete exploration: a %d-byte chunk, every placement of newlines in it (%d placements, %d feasible paths incl. pending / no pending partial line; %d longer paths cut): what Write logs is exactly the completed lines of (pending ++ chunk), in order, empty ones included, and what it leaves buffered is exactly the unterminated rest: %v", N, len(placements), feasible, cut, lim(badLine))
+	c.Check(len(badRet) == 0, R("R17.1"), FStr(wr), "consumes-all", wr.Pos(), "every path returns (len(%s), nil): %v", P, lim(badRet))
+	c.Check(len(badGate) == 0, R("R17.2"), FStr(wr), "level-gate", wr.Pos(), "Write first asks the logger's core whether the writer's level is enabled (afresh on every call) and, if not, returns (len(%s), nil) without buffering or logging: %v", P, lim(badGate))
+	c.Check(len(badFast) == 0 && len(badLine) == 0, R("R17.4"), FStr(wr), "fast-path-only-when-empty", wr.Pos(), "same exploration: a line is logged straight from the chunk only where the buffer is known to be empty; otherwise it joins the buffer, the buffer is logged and then reset: %v", lim(badFast))
+	c.Check(len(badKeep) == 0 && len(badLine) == 0, R("R17.5"), FStr(wr), "no-retained-caller-slice", wr.Pos(), "same exploration: the buffer only ever grows by copying (bytes.Buffer.Write / append(buf, piece...)); the caller's slice is never stored: %v", lim(badKeep))
 
 	// ---------------- Sync / Close ----------------
 	sseqs, strunc, _ := explore(sy, 0)
@@ -596,7 +596,7 @@ func c17Rules(c *Ctx, alias string) {
 			badSync = append(badSync, sq)
 		}
 	}
-	c.Check(!strunc && len(sseqs) >= 2 && len(badSync) == 0, R("R17.3"), sy.String(), "flushes-partial-line-only-if-non-empty", sy.Pos(), "Sync logs the pending partial line exactly when the buffer is non-empty (no empty message for a trailing newline), resets the buffer and returns nil: %v", badSync)
+	c.Check(!strunc && len(sseqs) >= 2 && len(badSync) == 0, R("R17.3"), FStr(sy), "flushes-partial-line-only-if-non-empty", sy.Pos(), "Sync logs the pending partial line exactly when the buffer is non-empty (no empty message for a trailing newline), resets the buffer and returns nil: %v", badSync)
 	cseqs, ctrunc, _ := explore(cl, 0)
 	okClose := !ctrunc && len(cseqs) > 0
 	for _, sq := range cseqs {
@@ -604,7 +604,7 @@ func c17Rules(c *Ctx, alias string) {
 			okClose = false
 		}
 	}
-	c.Check(okClose, R("R17.3"), cl.String(), "close-is-sync", cl.Pos(), "Close flushes through Sync on every path: %v", cseqs)
+	c.Check(okClose, R("R17.3"), FStr(cl), "close-is-sync", cl.Pos(), "Close flushes through Sync on every path: %v", cseqs)
 }
 
 func (c *Ctx) constByteSlice(v ssa.Value) ([]byte, bool) {
@@ -666,7 +666,7 @@ func (c *Ctx) constByteSlice(v ssa.Value) ([]byte, bool) {
 					if y.Addr == ssa.Value(g) {
 						n++
 						val = y.Val
-						if fn.Name() != "init" {
+						if FNm(fn) != "init" {
 							bad = true
 						}
 					}
